@@ -60,6 +60,7 @@ type Contract struct {
 	Loops      map[int]*LoopSpec
 	NoAlloc    bool
 	Trusted    bool // contract is assumed, body not verified
+	Recovers   string // non-empty: the function must recover from panics of its callees (checked structurally)
 	Extern     bool // dependency: assumed
 	Inline     bool
 	Ghosts     []GhostUpdate
@@ -157,7 +158,7 @@ func (s *Specs) LoadContractFile(path, pkgPath string, isGo bool) {
 			first = t[:j]
 		}
 		switch first {
-		case "unit", "requires", "ensures", "assigns", "loop", "ghost", "at", "trusted", "inline", "extern", "pred", "ghostfn", "package", "guarded_by", "holds", "acquires", "props", "why", "fnfield", "ghostvar", "region", "assert", "axiom":
+		case "unit", "requires", "ensures", "assigns", "loop", "ghost", "at", "trusted", "recovers", "inline", "extern", "pred", "ghostfn", "package", "guarded_by", "holds", "acquires", "props", "why", "fnfield", "ghostvar", "region", "assert", "axiom":
 			logical = append(logical, ll{t, i + 1})
 		default:
 			if len(logical) == 0 {
@@ -211,6 +212,15 @@ func (s *Specs) LoadContractFile(path, pkgPath string, isGo bool) {
 			if cur != nil {
 				cur.Trusted = true
 				cur.Why = rest
+			}
+		case "recovers":
+			// recovers <why>: the (trusted) function must install a deferred recover that turns a
+			// panic of its callees into an error result; checked on the SSA of the real function
+			if cur != nil {
+				cur.Recovers = rest
+				if cur.Recovers == "" {
+					cur.Recovers = "panics of the callees are converted into an error"
+				}
 			}
 		case "why":
 			if cur != nil {
